@@ -15,6 +15,7 @@ def g(o, name):
 class Monitor(object):
     def __init__(self, static_voters=None):
         self.records = []
+        self.committed_in_term = {}
         self.down_logs = {}
         self.last_logs = {}
         self.stuck_reported = {}
@@ -179,6 +180,7 @@ class Monitor(object):
                              % (idx, self.committed[idx][1], e[2]))
                 first_report = idx not in self.committed
                 self.committed.setdefault(idx, (e[0], e[2]))
+                self.committed_in_term.setdefault(idx, g(o, 'raftCurrentTerm'))
                 # with dynamic membership only the first report of a position is held against the voters' logs:
                 # members removed (and shut down) since then legitimately shrink the set of holders
                 if not self.kills and nid < RO_BASE and (first_report or not rec.cfg.get('dyn')):
@@ -257,6 +259,8 @@ class Monitor(object):
                 self.leaders.setdefault(t, who)
                 if not self.kills:
                     for idx, (cmdb, tm) in self.committed.items():
+                        if self.committed_in_term.get(idx, 0) >= t:
+                            continue        # the property speaks of what was committed under leaders of EARLIER terms
                         e = self.entry_at(log, idx)
                         if e is None:
                             if log and idx < log[0][1]:
